@@ -143,6 +143,377 @@ def r2_more_normalisation(chk):
         r.require(cfg, 5, "send_multipart implementations that forward frames (PUSH, PUB, DEALER, REP, ROUTER)")
 
 
+# ----------------------------------------------------------------------------
+# R3: the 255-frame container is never overfilled on the socket side
+# ----------------------------------------------------------------------------
+GROW = re.compile(r"FrameBatch::(push|insert)$|FrameBatch as std::iter::Extend<.*>>::extend$|FrameBatch as std::convert::From<.*>>::from$")
+SOCKET_SIDE = re.compile(r"core/src/socket/")
+# predicates whose value does not change between two evaluations inside one API call (trusted, listed in the evidence)
+STABLE_PREDICATES = {"socket::patterns::framing::FramingLatch::is_manual": "the framing mode is read from an atomic latch that user code flips only through set_option, not during a send/recv call of the same task"}
+# growth that re-packages frames which already sit in ONE FrameBatch (<= 255 by the container's own invariant): the sum cannot grow
+R3_JUSTIFIED = {
+    "rep_socket::RepSocket::extract_routing_prefix|push|routing_prefix": "partitions one received batch into prefix and payload: every pushed frame was popped from that batch",
+    "rep_socket::RepSocket::extract_routing_prefix|push|payload_frames": "partitions one received batch into prefix and payload: every pushed frame was popped from that batch",
+    "anonymous_ingress::AnonymousIngressEngine::recv_multipart::{closure#0}|push|new": "re-assembles the unread tail of ONE batch from the frame stash",
+}
+
+
+R3_CHAIN_JUSTIFIED = {
+    ("<DefaultRouterStrategy as RouterSendStrategy>::prepare_wire_frames|insert|payload_frames", "<RouterSocket as ISocket>::send_multipart"):
+        {"needs": "removal-dominates-strategy-call", "reason": "manual framing (auto framing takes the capacity comparison): send_multipart removes the identity frame from the batch before the strategy puts one frame back"},
+    ("<ReqPeerStrategy as RouterSendStrategy>::prepare_wire_frames|push|payload_frames", "<RouterSocket as ISocket>::send_multipart"):
+        {"needs": "removal-dominates-strategy-call", "reason": "manual framing: the identity frame was removed from the batch before the strategy builds delimiter + payload"},
+    ("<ReqPeerStrategy as RouterSendStrategy>::prepare_wire_frames|extend|payload_frames", "<RouterSocket as ISocket>::send_multipart"):
+        {"needs": "removal-dominates-strategy-call", "reason": "manual framing: the identity frame was removed from the batch before the strategy builds delimiter + payload"},
+    ("<DealerSocket as ISocket>::send::{closure#0}|push|parts#1", "<DealerSocket as ISocket>::send"):
+        {"needs": "proved:<DealerSocket as ISocket>::send::{closure#0}|push|parts", "reason": "the transaction buffer is filled only by the MORE branch of this function, behind `parts.len() >= MAX_DEALER_SEND_BUFFER_PARTS -> Err` (MAX_FRAMES - 2): final frame and delimiter still fit"},
+    ("patterns::framing::dealer_auto_encode|insert|frames", "<DealerSocket as ISocket>::send"):
+        {"needs": "proved:<DealerSocket as ISocket>::send::{closure#0}|push|parts", "reason": "same invariant of the transaction buffer (MAX_FRAMES - 2 buffered frames + final frame + delimiter)"},
+}
+
+
+def _cap_value(prog, body, o):
+    """integer a comparison operand evaluates to (literal, constant arithmetic, or a named const item), else None"""
+    v = body.const_int(o)
+    if v is not None:
+        return v
+    pv = body.provenance(o)
+    m = re.match(r"^const:([\w:<>]+)$", pv)
+    if m:
+        return prog.const_int(m.group(1)) if prog.const_int(m.group(1)) is not None else (255 if m.group(1).endswith("MAX_FRAMES") else None)
+    return None
+
+
+def _ok_edges(prog, body, checking):
+    """set of (switch_block, label): edges on which a frame count was just compared with the container capacity and found to fit,
+    or on which a *checking function* (all of whose Ok returns lie behind such an edge) returned Ok"""
+    out = set()
+    for s in range(body.n):
+        t = body.term(s)
+        if t["k"] != "switch" or body.blocks[s]["cleanup"]:
+            continue
+        a, pol = body.switch_atom(s)
+        if a[0] == "cmp" and t.get("dty") == "bool":
+            x, y = body.provenance(a[2]), body.provenance(a[3])
+            cx, cy = _cap_value(prog, body, a[2]), _cap_value(prog, body, a[3])
+            op = a[1]
+            LEN = r"message::FrameBatch::len\(|std::vec::Vec::len\("
+            if re.search(LEN, y) and cx is not None and not re.search(LEN, x):
+                x, y, cx, cy = y, x, cy, cx
+                op = {"Lt": "Gt", "Le": "Ge", "Gt": "Lt", "Ge": "Le", "Eq": "Eq", "Ne": "Ne"}[op]
+            if not (re.search(LEN, x) and cy is not None and 1 <= cy <= 255):
+                continue
+            labels = [v for v, _ in t["targets"]] + ["otherwise"]
+            for lab in labels:
+                g = mir.Guard(body, s, lab)
+                if g.truth is None:
+                    continue
+                op2 = op if g.truth else {"Lt": "Ge", "Le": "Gt", "Gt": "Le", "Ge": "Lt", "Eq": "Ne", "Ne": "Eq"}[op]
+                if op2 in ("Lt", "Le"):
+                    out.add((s, lab))
+        elif a[0] == "discr":
+            # switch on the result of a checking function (directly, or through `?` = Try::branch)
+            org = body.value_origin({"c": "copy", "p": a[3]}) if not a[3]["pr"] else ("place", a[3])
+            call = org[1] if org[0] == "call" else None
+            if call is not None and call.declared.endswith("ops::Try::branch") and call.args:
+                o2 = body.value_origin(call.args[0])
+                call = o2[1] if o2[0] == "call" else None
+            if call is not None and call.callee in checking:
+                out.add((s, 0))  # Ok / Continue
+    return out
+
+
+def _latch_summary_holds(prog):
+    """Verify on MIR the facts behind the trusted summary `is_manual() == true  =>  FramingLatch::encode/decode call noop`:
+    is_manual is `mode.load() == 1`; encode/decode call `table[mode.load() & 1]`; both tables are built as [auto, noop]; noop does nothing."""
+    why = []
+    im = prog.body("socket::patterns::framing::FramingLatch::is_manual")
+    ok = im is not None
+    if ok:
+        ret = [st for _, _, st in im.statements() if st["k"] == "assign" and st["p"]["l"] == 0 and not st["p"]["pr"]]
+        ok = len(ret) == 1 and ret[0]["r"]["k"] == "binop" and ret[0]["r"]["op"] == "Eq" and \
+            "load(self.mode)" in im.provenance(ret[0]["r"]["a"]) and im.const_int(ret[0]["r"]["b"]) == 1
+    if not ok:
+        why.append("is_manual is not `mode.load() == 1`")
+    for nm, tbl in (("encode", "encoders"), ("decode", "decoders")):
+        f = prog.body("socket::patterns::framing::FramingLatch::" + nm)
+        good = False
+        if f is not None:
+            ind = [c for c in f.calls if c.kind != "def"]
+            if len(ind) == 1 and len(f.calls) == 2:
+                fo = ind[0].t["f"].get("o")
+                pv = f.provenance(fo) if fo else ""
+                # the callee operand is self.<tbl>[idx]; idx = load(self.mode) & 1
+                good = pv.startswith("self.%s[]" % tbl)
+                idxs = [st for _, _, st in f.statements() if st["k"] == "assign" and st["r"]["k"] == "binop" and st["r"]["op"] == "BitAnd"]
+                good = good and len(idxs) == 1 and "load(self.mode)" in f.provenance(idxs[0]["r"]["a"]) and f.const_int(idxs[0]["r"]["b"]) == 1
+        if not good:
+            why.append("%s is not `self.%s[mode.load() & 1](frames)`" % (nm, tbl))
+    nw = prog.body("socket::patterns::framing::FramingLatch::new")
+    good = False
+    if nw is not None:
+        arrs = [st for _, _, st in nw.aggregates() if st["r"].get("ak") == "array"]
+        good = len(arrs) == 2
+        for st in arrs:
+            ops = st["r"]["ops"]
+            org = nw.value_origin(ops[1]) if len(ops) == 2 else ("?",)
+            o = org[1]["o"] if org[0] == "other" and org[1].get("k") == "cast" else (org[1] if org[0] == "const" else None)
+            good = good and len(ops) == 2 and o is not None and "fn" in o and strip_generics(o["fn"]["path"]).endswith("framing::noop")
+    if not good:
+        why.append("new() does not build both tables as [auto, noop]")
+    np_ = prog.body("socket::patterns::framing::noop")
+    if np_ is None or np_.calls or np_.n != 1:
+        why.append("noop is not empty")
+    return (not why), why
+
+
+def _discr_key(body, a):
+    """canonical key of a discriminant switch atom: the place read; `mem::replace(P, ..)` reads the old value of P"""
+    path = body.provenance({"c": "copy", "p": a[3]})
+    m = re.match(r"^std::mem::(?:replace|take)\((.*)\)$", path)
+    if m:
+        return "old(%s)" % m.group(1)
+    return path
+
+
+def _latch_tables(prog):
+    """socket type -> (encoder, decoder) handed to FramingLatch::new in that type's own code"""
+    out = {}
+    for b in prog.bodies.values():
+        if not b.impl_self:
+            continue
+        for c in b.calls:
+            if c.callee.endswith("framing::FramingLatch::new") and len(c.args) == 2:
+                fns = []
+                for a in c.args:
+                    org = b.value_origin(a)
+                    o = org[1] if org[0] == "const" else None
+                    if o is None and org[0] == "other" and org[1].get("k") == "cast":
+                        o = org[1]["o"]
+                    fns.append(strip_generics((o["fn"].get("res") or o["fn"]["path"])) if o and "fn" in o else None)
+                if all(fns):
+                    out[b.impl_self] = tuple(fns)
+    return out
+
+
+def _mentions(text, names):
+    return any(re.search(r"(?<![\w.])%s\b" % re.escape(n), text) for n in names)
+
+
+def _unbounded(body, o, tainted):
+    """may this FrameBatch operand hold a frame count chosen by the user / accumulated in socket state?"""
+    pv = body.provenance_all(o)
+    if _mentions(pv, tainted):
+        return True
+    if re.search(r"Mutex::lock|RwLock::(read|write)|std::mem::(replace|take)\(", pv):
+        return True
+    return False
+
+
+def _explore(prog, sp_of, open_sites, checking, latch_ok, entry, okcache, ctcache, latch_tables=None):
+    """open growth sites reachable from `entry` without taking a fitting edge.  Path conditions that are kept consistent:
+    the stable predicates (FramingLatch::is_manual, handed down into callees: one latch per socket) and, inside one body,
+    the discriminant of a place that is tested twice (`if let V(..) = &*g` followed by `match mem::replace(&mut *g, ..)`)."""
+    reached = set()
+    seen_ctx = set()
+    eb = sp_of.get(entry)
+    table = (latch_tables or {}).get(eb.impl_self) if eb is not None else None
+    names0, _ = eb.names if eb is not None else ({}, None)
+    t0 = frozenset(names0.get(i, "_%d" % i) for i in range(1, (eb.rec.get("argc", 0) if eb is not None else 0) + 1)
+                   if eb is not None and re.search(r"message::FrameBatch|Vec<message::msg::Msg", eb.locals[i]))
+    work = [(entry, frozenset(), t0)]
+    while work:
+        sp, asm0, tainted = work.pop()
+        if (sp, asm0, tainted) in seen_ctx:
+            continue
+        seen_ctx.add((sp, asm0, tainted))
+        b = sp_of.get(sp)
+        if b is None:
+            continue
+        if sp not in okcache:
+            okcache[sp] = _ok_edges(prog, b, checking)
+            m = {}
+            for c in b.calls:
+                for t in prog.callees_of_call(c):
+                    m.setdefault(c.blk, []).append((t, c))
+            for blk, i, st in b.aggregates():
+                if st["r"].get("ak") in ("closure", "coroutine", "coroutine_closure"):
+                    m.setdefault(blk, []).append((strip_generics(st["r"]["def"]), None))
+            ctcache[sp] = m
+        ok_e, calls = okcache[sp], ctcache[sp]
+        sites = {}
+        for c, key in open_sites.get(sp, []):
+            sites.setdefault(c.blk, []).append(key)
+        replaces = {c.blk: b.provenance(c.args[0]) for c in b.calls if c.callee in ("std::mem::replace", "std::mem::take") and c.args}
+        seen = set()
+        stack = [(0, asm0)]
+        while stack:
+            blk, asm = stack.pop()
+            if (blk, asm) in seen:
+                continue
+            seen.add((blk, asm))
+            d = dict(asm)
+            for key in sites.get(blk, []):
+                c0 = next(c for c, k in open_sites[sp] if k == key)
+                if not hasattr(c0, "args") or any(_unbounded(b, a, tainted) for a in c0.args[:2] if a["c"] in ("copy", "move")):
+                    reached.add(key)
+            for t, c in calls.get(blk, []):
+                tb = sp_of.get(t)
+                if tb is None:
+                    continue
+                if c is not None and c.kind != "def" and table and re.search(r"framing::FramingLatch::(encode|decode)$", sp):
+                    if t != (table[0] if sp.endswith("encode") else table[1]):
+                        continue  # this socket's latch was built with other functions
+                if tb.impl_trait == "socket::ISocket" and tb.kind in ("fn", "assoc_fn") and t != entry:
+                    continue  # an entry of its own: judged from its own start, without credit for the caller's checks
+                if c is not None and latch_ok and d.get("is_manual") is True and re.search(r"framing::FramingLatch::(encode|decode)$", c.callee):
+                    continue  # manual mode: the latch dispatches to noop (summary verified on MIR)
+                # which of the callee's parameters / captures are unbounded
+                tn, _ = tb.names
+                if c is not None:
+                    tt = frozenset(tn.get(j + 1, "_%d" % (j + 1)) for j, a in enumerate(c.args) if a["c"] in ("copy", "move") and _unbounded(b, a, tainted))
+                else:
+                    st_ = next(st for bb, i, st in b.aggregates() if bb == blk and st["r"].get("def") and strip_generics(st["r"]["def"]) == t)
+                    caps = {}
+                    for dbg in tb.rec.get("debug", []):
+                        pr = dbg["p"]["pr"]
+                        if dbg["p"]["l"] == 1 and pr and pr[0][0] == "field":
+                            caps[pr[0][1]] = dbg["name"]
+                    tt = frozenset(caps.get(j, "?") for j, a in enumerate(st_["r"]["ops"]) if a["c"] in ("copy", "move") and _unbounded(b, a, tainted))
+                work.append((t, frozenset((k, v) for k, v in asm if k == "is_manual"), tt))
+            if blk in replaces:
+                k = ("discr", replaces[blk])
+                if k in d:
+                    d[("discr", "old(%s)" % replaces[blk])] = d.pop(k)
+                    asm = frozenset(d.items())
+            t = b.term(blk)
+            atom_key = None
+            dkey = None
+            if t["k"] == "switch":
+                a, pol = b.switch_atom(blk)
+                if a[0] == "call" and a[1].callee in STABLE_PREDICATES:
+                    atom_key = a[1].name
+                elif a[0] == "discr":
+                    dkey = ("discr", _discr_key(b, a))
+            listed = [v for v, _ in t["targets"]] if t["k"] == "switch" else []
+            for tb_, lab in b.edges(blk):
+                if (blk, lab) in ok_e:
+                    continue
+                asm2 = asm
+                if atom_key is not None:
+                    g = mir.Guard(b, blk, lab)
+                    if g.truth is not None:
+                        prev = d.get(atom_key)
+                        if prev is not None and prev != g.truth:
+                            continue
+                        asm2 = frozenset(list(asm) + [(atom_key, g.truth)])
+                elif dkey is not None:
+                    prev = d.get(dkey)
+                    cur = ("eq", lab) if lab != "otherwise" else ("ne", tuple(listed))
+                    if prev is not None:
+                        if prev[0] == "eq" and cur[0] == "eq" and prev[1] != cur[1]:
+                            continue
+                        if prev[0] == "eq" and cur[0] == "ne" and prev[1] in cur[1]:
+                            continue
+                        if prev[0] == "ne" and cur[0] == "eq" and cur[1] in prev[1]:
+                            continue
+                    if prev is None or (prev[0] == "ne" and cur[0] == "eq"):
+                        d2 = dict(d)
+                        d2[dkey] = cur
+                        asm2 = frozenset(d2.items())
+                stack.append((tb_, asm2))
+    return reached
+
+
+def r3_capacity(chk):
+    r = chk.rule("R3", "the 255-frame container is never overfilled by socket code", "T8 growth census + T4 must-pass-through (interprocedural)",
+                 "every FrameBatch growth (push / insert / extend / From<Vec>) in the socket layer is proved to fit locally, or every call chain from a public entry "
+                 "(each ISocket method of each socket type, each Socket method) to it takes the fitting edge of a frame-count-vs-capacity comparison "
+                 "(or the Ok edge of a function that makes that comparison), or it only re-packages frames of one existing batch (listed). "
+                 "Decides that a capacity check exists on every chain - not its arithmetic.")
+    from rules import c07
+    for cfg, prog in chk.configs():
+        bodies = [b for b in prog.bodies.values() if SOCKET_SIDE.search(b.file) and "::tests" not in b.path and "_tests::" not in b.path]
+        sp_of = {strip_generics(b.path): b for b in bodies}
+        latch_ok, why = _latch_summary_holds(prog)
+        if latch_ok:
+            r.ok(cfg, "FramingLatch|manual mode dispatches to noop", "core/src/socket/patterns/framing.rs", "is_manual == (mode == 1); encode/decode call table[mode & 1]; tables are [auto, noop]; noop is empty")
+        else:
+            r.note("%s: latch summary NOT applied (%s): manual-mode paths are treated like auto-mode paths" % (cfg, "; ".join(why)))
+        # 1. growth sites not proved locally
+        open_sites = {}
+        all_keys = {}
+        for b in bodies:
+            n = {}
+            for c in b.calls:
+                if not (GROW.search(c.callee) or GROW.search(c.declared)):
+                    continue
+                base = b.provenance_u(c.args[0]) if c.args else ""
+                ids = re.findall(r"[A-Za-z_][A-Za-z_0-9]*", re.sub(r"@\w+|\bconst\b", "", base or ""))
+                k0 = "%s|%s|%s" % (short(b.path), c.name, ids[-1] if ids else "-")
+                n[k0] = n.get(k0, 0) + 1
+                key = k0 if n[k0] == 1 else "%s#%d" % (k0, n[k0] - 1)
+                proof = c07.capacity_proved(b, c.blk, c)
+                if proof:
+                    r.ok(cfg, key, where(b, c.blk), "local: " + proof)
+                elif k0 in R3_JUSTIFIED:
+                    r.ok(cfg, key, where(b, c.blk), "listed: " + R3_JUSTIFIED[k0])
+                else:
+                    open_sites.setdefault(strip_generics(b.path), []).append((c, key))
+                    all_keys[key] = (b, c)
+        # 2. checking functions: every Ok return lies behind a fitting edge
+        checking = set()
+        for _ in range(3):
+            for b in bodies:
+                sp = strip_generics(b.path)
+                if sp in checking or b.kind not in ("fn", "assoc_fn"):
+                    continue
+                oks = set(blk for blk, i, st in b.aggregates() if st["r"].get("variant") == "Ok" and st["r"].get("adt", "").endswith("result::Result"))
+                if not oks:
+                    continue
+                ok_e = _ok_edges(prog, b, checking)
+                if not ok_e:
+                    continue
+                probe = {sp: [(type("S", (), {"blk": blk})(), "ok@%d" % blk) for blk in oks]}
+                if not _explore(prog, {sp: b}, probe, checking, latch_ok, sp, {}, {}):
+                    checking.add(sp)
+        r.note("%s: checking functions (return Ok only after a frame-count comparison): %s" % (cfg, ", ".join(sorted(short(x) for x in checking)) or "-"))
+        # 3. forward exploration from every public entry
+        entries = sorted(sp for sp, b in sp_of.items() if (b.impl_trait == "socket::ISocket" and b.kind in ("fn", "assoc_fn")) or (re.search(r"socket::types::Socket::\w+$", sp) and b.kind in ("fn", "assoc_fn")))
+        reached = {}
+        okcache, ctcache = {}, {}
+        tables = _latch_tables(prog)
+        for e in entries:
+            for key in _explore(prog, sp_of, open_sites, checking, latch_ok, e, okcache, ctcache, tables):
+                reached.setdefault(key, set()).add(short(e))
+        # chains that are safe for a reason the path analysis cannot see: one (site, entry) pair per line, each with the
+        # structural fact that has to keep holding
+        for (k0, ent), j in R3_CHAIN_JUSTIFIED.items():
+            if k0 not in reached or ent not in reached[k0]:
+                continue
+            holds = False
+            if j["needs"] == "removal-dominates-strategy-call":
+                eb = next((b for sp, b in sp_of.items() if short(sp) == ent + "::{closure#0}"), None)
+                if eb is not None:
+                    rem = [c for c in eb.calls if c.callee == "message::FrameBatch::remove"]
+                    strat = [c for c in eb.calls if c.name == "prepare_wire_frames"]
+                    holds = bool(strat) and all(any(eb.dominates(x.blk, y.blk) and eb.provenance(x.args[0]) in eb.provenance_all(y.args[2]) for x in rem) for y in strat)
+            elif j["needs"].startswith("proved:"):
+                holds = j["needs"][len("proved:"):] not in reached
+            if holds:
+                reached[k0].discard(ent)
+                r.note("%s: %s from %s accepted: %s" % (cfg, k0, ent, j["reason"]))
+                if not reached[k0]:
+                    del reached[k0]
+        r.note("%s: %d public entries explored, %d growth sites need an interprocedural argument" % (cfg, len(entries), len(all_keys)))
+        for key, (b, c) in sorted(all_keys.items()):
+            if key in reached:
+                r.bad(cfg, key, where(b, c.blk), "FrameBatch::%s can be reached from %s without any comparison of the frame count with the container's capacity on the way (no fitting edge of a `len .. MAX_FRAMES` test, no Ok edge of a checking function): a message with too many frames panics in the caller's task instead of being refused with an error" % (c.name, ", ".join(sorted(reached[key]))[:240]))
+            else:
+                r.ok(cfg, key, where(b, c.blk), "every call chain from the public API takes the fitting edge of a frame-count comparison first")
+        r.require(cfg, 25, "FrameBatch growth sites in the socket layer")
+
+
 def r4_only_complete_batches(chk):
     r = chk.rule("R4", "only complete batches are delivered", "T3 guarded-by",
                  "the engine emits DeliverMessage only for a frame without MORE and hands over the accumulated batch with mem::replace")
@@ -204,5 +575,6 @@ def run(chk):
     chk.undecided = ["contiguity under all attach/detach interleavings beyond R1", "flag correctness for every message shape (value-level)"]
     r1_who_clears_stash(chk)
     r2_more_normalisation(chk)
+    r3_capacity(chk)
     r4_only_complete_batches(chk)
     r5_recv_keeps_tail(chk)
